@@ -28,6 +28,7 @@ type funcFacts struct {
 	cdepsErr  map[*ssa.BasicBlock][]cond
 	domConds  map[*ssa.BasicBlock][]cond
 	reachMemo map[[2]*ssa.BasicBlock]bool
+	csMemo    map[*ssa.BasicBlock][][]cond
 }
 
 var factsCache = map[*ssa.Function]*funcFacts{}
@@ -483,4 +484,127 @@ func constString(v ssa.Value) (string, bool) {
 		return "", false
 	}
 	return constant.StringVal(c.Value), true
+}
+
+// ---------------------------------------------------------------- path-sensitive condition sets
+
+// edgeCond returns the branch condition that holds on the CFG edge p -> b.
+func edgeCond(p, b *ssa.BasicBlock) (cond, bool) {
+	ifi, ok := p.Instrs[len(p.Instrs)-1].(*ssa.If)
+	if !ok {
+		return cond{}, false
+	}
+	if p.Succs[0] == b && p.Succs[1] == b {
+		return cond{}, false
+	}
+	if p.Succs[0] == b {
+		return cond{V: ifi.Cond, Pos: true, At: p}, true
+	}
+	if p.Succs[1] == b {
+		return cond{V: ifi.Cond, Pos: false, At: p}, true
+	}
+	return cond{}, false
+}
+
+const maxCondSets = 24
+
+// condSets returns alternative sets of conditions such that on every execution
+// reaching b at least one set holds entirely (path-sensitive refinement of
+// dominatingConds, bounded; falls back to the dominating conditions).
+func (f *funcFacts) condSets(b *ssa.BasicBlock) [][]cond {
+	if f.csMemo == nil {
+		f.csMemo = map[*ssa.BasicBlock][][]cond{}
+	}
+	if r, ok := f.csMemo[b]; ok {
+		return r
+	}
+	f.csMemo[b] = [][]cond{f.dominatingConds(b)} // cycle guard
+	d := b.Idom()
+	if d == nil {
+		r := [][]cond{nil}
+		f.csMemo[b] = r
+		return r
+	}
+	upper := f.condSets(d)
+	paths := f.regionPaths(d, b)
+	if paths == nil {
+		r := [][]cond{f.dominatingConds(b)}
+		f.csMemo[b] = r
+		return r
+	}
+	if len(upper)*len(paths) > maxCondSets {
+		upper = [][]cond{f.dominatingConds(d)}
+	}
+	if len(upper)*len(paths) > maxCondSets {
+		r := [][]cond{f.dominatingConds(b)}
+		f.csMemo[b] = r
+		return r
+	}
+	var out [][]cond
+	for _, u := range upper {
+		for _, pth := range paths {
+			s := make([]cond, 0, len(u)+len(pth))
+			s = append(s, u...)
+			s = append(s, pth...)
+			out = append(out, s)
+		}
+	}
+	f.csMemo[b] = out
+	return out
+}
+
+// regionPaths enumerates the acyclic paths from d (idom of b) to b and returns
+// the edge conditions along each; nil if there are too many.
+func (f *funcFacts) regionPaths(d, b *ssa.BasicBlock) [][]cond {
+	var out [][]cond
+	tooMany := false
+	var cur []cond
+	onPath := map[*ssa.BasicBlock]bool{}
+	var walk func(x *ssa.BasicBlock)
+	walk = func(x *ssa.BasicBlock) {
+		if tooMany {
+			return
+		}
+		if x == b && len(cur) >= 0 && (x != d || len(onPath) > 0) {
+			cp := make([]cond, len(cur))
+			copy(cp, cur)
+			out = append(out, cp)
+			if len(out) > maxCondSets {
+				tooMany = true
+			}
+			return
+		}
+		if onPath[x] {
+			return
+		}
+		onPath[x] = true
+		for _, s := range x.Succs {
+			if s != b && (!d.Dominates(s) || s == d) {
+				continue // leaves the region or is a back edge to d
+			}
+			if s != b && !f.blockReaches(s, b) {
+				continue
+			}
+			if s.Dominates(x) && s != b {
+				continue // back edge
+			}
+			if s == b && b.Dominates(x) && x != d {
+				continue // back edge into b (b is a loop header inside the region)
+			}
+			ec, ok := edgeCond(x, s)
+			if ok {
+				cur = append(cur, ec)
+			}
+			walk(s)
+			if ok {
+				cur = cur[:len(cur)-1]
+			}
+		}
+		delete(onPath, x)
+	}
+	walk(d)
+	if tooMany || len(out) == 0 {
+		return nil
+	}
+	return out
 }
